@@ -44,6 +44,11 @@ def process_level(res, tier):
         tf = os.path.join(wd, "t_%s.txt" % tag)
         with open(tf, "w") as f:
             f.write("%g %g\n-5.99 5.99\n5.99 -5.99\n" % (q0, p0))
+            # ... a particle exactly on a mesh point, one on the very last mesh point of the position axis, one beyond the grid (it is brought onto it)
+            d_ = 12.0 / (n - 1)
+            f.write("%.9g %.9g\n" % (-sx * d_ - 6 + (n // 2 + 3) * d_, -sy * d_ - 6 + (n // 2 - 2) * d_))
+            f.write("%.9g %.9g\n" % (-sx * d_ - 6 + (n - 1) * d_, -sy * d_ - 6 + 5 * d_))
+            f.write("%.9g %.9g\n" % (-sx * d_ + 7.5, -sy * d_ - 6 + 9 * d_))
         a = ["-s", n, "-N", 32, "-T", 1, "-n", 1, "-G", 0, "-f", 45000, "--RenormalizeCharge", -1, "-i", start, "--padding", 2,
              "--PhaseSpaceShiftX", sx, "--PhaseSpaceShiftY", sy, "--InterpolationPoints", it, "--tracking", tf, "--FPTrack", fptrack]
         a += ["-d", 0, "--FPType", 0] if fptrack == 0 else ["-d", 2e-4]
@@ -72,7 +77,22 @@ def process_level(res, tier):
         key = "C15/process/%s" % (("rotation" if not mod else "modulated-rf") if fptrack == 0 else "stochastic")
         d = 12.0 / (n - 1)
         bad = False
+        # the first record holds the start positions (brought onto the grid where they lie outside), to within the one cell of the stored truncation
+        given = [(q0, p0), (-5.99, 5.99), (5.99, -5.99), (-sx * d - 6 + (n // 2 + 3) * d, -sy * d - 6 + (n // 2 - 2) * d), (-sx * d - 6 + (n - 1) * d, -sy * d - 6 + 5 * d), (-sx * d + 7.5, -sy * d - 6 + 9 * d)]
+        if pt and len(pt[0]) == 2 * len(given):
+            for j, (gq, gp) in enumerate(given):
+                wq, wp = min(max(gq, z[0]), z[-1]), min(max(gp, e[0]), e[-1])
+                if abs(pt[0][2 * j] - wq) > 1.05 * d + 1e-4 or abs(pt[0][2 * j + 1] - wp) > 1.05 * d + 1e-4:
+                    res.violate(key + "/first-record-is-not-the-start-position/%s" % ("on-a-mesh-point" if j in (3, 4) else "outside-the-grid" if j == 5 else "generic"), case,
+                                "particle %d given at (%g, %g): the first record says (%g, %g)" % (j, gq, gp, pt[0][2 * j], pt[0][2 * j + 1]), replay=rp)
+                    bad = True
+                    break
+        elif pt:
+            res.violate(key + "/particle-count", case, "%d coordinates per record for %d particles" % (len(pt[0]), len(given)), replay=rp)
+            bad = True
         for k, row in enumerate(pt):
+            if bad:
+                break
             for j in range(0, len(row), 2):
                 if not (z[0] - 1e-4 <= row[j] <= z[-1] + 1e-4 and e[0] - 1e-4 <= row[j + 1] <= e[-1] + 1e-4) or row[j] != row[j] or row[j + 1] != row[j + 1]:
                     res.violate(key + "/leaves-grid", case, "record %d particle %d at (%g, %g), grid [%g,%g]x[%g,%g]" % (k, j // 2, row[j], row[j + 1], z[0], z[-1], e[0], e[-1]), replay=rp)
